@@ -740,6 +740,23 @@ def c08(ctx):
     streams.append(("corpus", b"*2\r\n$3\r\nGET\r\n$1\r\nk\r\n", b"+OK r\r\n"))
     for i in range(4 if quick else 30):
         streams.append(("tokens", token_string(rng), token_string(rng)))
+    # lines with carriage returns inside (single, runs of two and three) in front of the line feed, at the top level and
+    # inside arrays, both directions: where a line ends must not depend on where a read happened to end
+    def cr_line(t):
+        body = b"".join(rng.choice([b"a", b"k", b"\r", b"\r\r", b"\r\r\r", b" ", b"7"]) for _ in range(rng.randint(1, 4)))
+        return t + body + rng.choice([b"\r\n", b"\r\n", b"\n", b"\r\r\n"])
+    for i in range(8 if quick else 60):
+        def half():
+            out = b""
+            for _ in range(rng.randint(1, 3)):
+                if rng.random() < 0.6:
+                    n = rng.randint(1, 3)
+                    out += b"*%d\r\n" % n + b"".join(cr_line(rng.choice([b"+", b"-", b":"])) for _ in range(n))
+                else:
+                    out += cr_line(rng.choice([b"+", b"-", b":"]))
+            return out
+        streams.append(("cr-lines", half(), half()))
+    streams.append(("cr-lines", b"*2\r\n+k\r\r\n+v\r\n", b"+OK\r\r\n+x\r\n"))
     big = gen_conv(rng, tb, 3, True, big=True)
     cb, sb, _, _ = enc_conv(big)
     kcases = []
@@ -873,6 +890,12 @@ def c01(ctx):
         batch.append(([b"*1\r\n$4\r\nPING\r\n"], 0, [w], 0, "cs", None, None))
         batch.append(([b"*1\r\n$4\r\nPING\r\n"], 0, [w[:1], w[1:]], 0, "cs", None, None))
         batch.append(([w], 0, [b"+PONG\r\n"], 0, "cs", None, None))
+    # cluster redirections whose endpoint is a soup of the characters an address is made of (brackets, colons, digits)
+    pieces = [b"[", b"]", b":", b"::", b"1", b"h", b"6381", b"[::1]", b"", b"-1", b"65536", b"[]", b"x:y:z", b"127.0.0.1", b".", b"[:"]
+    for _ in range(300 if quick else 6000):
+        ep = b"".join(rng.choice(pieces) for _ in range(rng.randint(0, 5)))
+        w = b"-" + rng.choice([b"MOVED", b"ASK"]) + b" " + rng.choice([b"3999", b"0", b"x", b""]) + b" " + ep + rng.choice([b"", b"", b" extra"]) + b"\r\n"
+        batch.append(([b"*1\r\n$4\r\nPING\r\n" * 2], 0, [b"+PONG\r\n" + w], 0, "cs", None, None))
     batch.append(([b"*1\r\n$4\r\nPING\r\n"], 0, [b"+", b"PONG\r\n"], 0, "cs", [(cmd_view([b"PING"]), view(T_SIMPLE, kw=b"PONG"))], None))
     run_batch(batch, "tokens")
     if model_available(ctx):
